@@ -21,7 +21,8 @@ EXPLANATION = (
     "parameter; (R3) _check_dispatch maps every Field check keyword to the canonical Check constructor of that "
     "name/alias; (R4) FieldInfo.column_properties / index_properties forward every FieldInfo attribute that the "
     "Column / Index constructor accepts; (R5) building a model's schema writes nothing but memo slots on the class "
-    "(no hidden state shared along the hierarchy). NOT decided: annotation -> dtype translation; MRO semantics at run "
+    "(no hidden state shared along the hierarchy). (R6) _collect_fields fills the field mapping while ranging over the type hints (declaration order), not the merged class attributes; (R7) the `Field omitted` test looks at the class's own namespace (cls.__dict__), so a bare re-annotation in a subclass gets a fresh Field. " 
+    "NOT decided: annotation -> dtype translation; MRO semantics at run "
     "time; verdict equality on data."
 )
 LEVEL_RULE = "one obligation per twin pair / config option / dispatch key / field attribute / write site"
